@@ -2,7 +2,12 @@
 
 package gomatrixserverlib
 
-import "github.com/matrix-org/gomatrixserverlib/spec"
+import (
+	"encoding/json"
+
+	"github.com/matrix-org/gomatrixserverlib/spec"
+	"golang.org/x/crypto/ed25519"
+)
 
 // vpVerNum maps a room version to the number of the stable version whose membership rules it has, plus whether
 // knock_restricted is defined for it.
@@ -57,6 +62,11 @@ type vpMemberCase struct {
 	inviteLvl     int64
 	via           string // join_authorised_via_users_server ("" = absent)
 	viaMember     string // membership of that user ("" = no member event)
+	// invite carrying a third_party_invite block ("" = none): "valid" (signed by the identity server whose key the
+	// pending-invite event lists), "forged" (signed by somebody else), "wrong-mxid" (names another user),
+	// "no-pending-invite" (no m.room.third_party_invite event for the token), "other-inviter" (the pending invite was
+	// issued by another user than the sender of this event)
+	tpi string
 }
 
 // vpSpecMember: the authorisation rules for m.room.member (Matrix spec, room versions 1-12) with the departures of
@@ -90,6 +100,13 @@ func vpSpecMemberStrict(c vpMemberCase) bool {
 	// m.federate
 	if c.federateFalse && sender[len(sender)-1] != c.creator[len(c.creator)-1] {
 		return false
+	}
+	// an invite that carries a third_party_invite block is decided by that block alone
+	if c.tpi != "" {
+		if c.oldMembership == spec.Ban {
+			return false // a banned user cannot be invited, third-party or not
+		}
+		return c.tpi == "valid"
 	}
 	// effective levels
 	creatorPrivileged := n >= 12
@@ -237,6 +254,9 @@ func vp_C07_member() {
 			c.viaMember = vpChoice("via_member", "", spec.Join, spec.Leave)
 		}
 	}
+	if c.newMembership == spec.Invite && !c.selfTarget {
+		c.tpi = vpChoice("third_party_invite", "", "valid", "forged", "wrong-mxid", "no-pending-invite", "other-inviter")
+	}
 	c.hasPL = vpNondetBool("has_pl")
 	c.senderLvl, c.targetLvl, c.viaLvl = vpNondetI64("lvl.sender"), vpNondetI64("lvl.target"), vpNondetI64("lvl.via")
 	c.banLvl, c.kickLvl, c.inviteLvl = vpNondetI64("lvl.ban"), vpNondetI64("lvl.kick"), vpNondetI64("lvl.invite")
@@ -279,8 +299,41 @@ func vp_C07_member() {
 		_ = auth.AddEvent(vpMkEvent(ver, "$mv:y", room, vpCarol, spec.MRoomMember, vpStrPtr(vpCarol), vpJObj("membership", c.viaMember)))
 	}
 	content := vpJObj("membership", c.newMembership)
+	if c.tpi != "" {
+		idPub, idPriv := vpKey("identity-server")
+		_, impostor := vpKey("impostor")
+		signer := ed25519.PrivateKey(idPriv)
+		if c.tpi == "forged" {
+			signer = ed25519.PrivateKey(impostor)
+		}
+		mxid := target
+		if c.tpi == "wrong-mxid" {
+			mxid = vpCarol
+		}
+		signed, serr := SignJSON("id.example", "ed25519:0", signer, vpJObj("mxid", mxid, "token", "tok"))
+		vpAssume(serr == nil)
+		content = vpJObj("membership", c.newMembership, "third_party_invite", vpJObj("display_name", "d", "signed", signed))
+		if c.tpi != "no-pending-invite" {
+			issuer := sender
+			if c.tpi == "other-inviter" {
+				issuer = vpCarol
+			}
+			k := spec.Base64Bytes(idPub).Encode()
+			_ = auth.AddEvent(vpMkEvent(ver, "$tpi:x", room, issuer, spec.MRoomThirdPartyInvite, vpStrPtr("tok"),
+				vpJObj("display_name", "d", "public_keys", vpJArr(vpJObj("public_key", k)))))
+		}
+	}
 	if c.via != "" {
 		content = vpJObj("membership", c.newMembership, "join_authorised_via_users_server", c.via)
+	}
+	// a further content key of an unexpected JSON type (clients put anything there); the rules do not look at it
+	if vpNondetBool("odd_displayname") {
+		var cm map[string]spec.RawJSON
+		vpAssume(json.Unmarshal(content, &cm) == nil)
+		cm["displayname"] = vpJVal(int64(42))
+		var merr error
+		content, merr = json.Marshal(cm)
+		vpAssume(merr == nil)
 	}
 	ev := vpMkEvent(ver, "$e:x", room, sender, spec.MRoomMember, vpStrPtr(target), content)
 	prev := "$other:x"
